@@ -55,11 +55,20 @@ def elastic_specs(draw, dim, classes=("iso", "tiso", "ortho", "aniso")):
     return spec
 
 
-def make_elastic(spec):
+def make_elastic(spec, Q=None):
+    """Q (3x3 orthogonal, optional): the same material carried by the isometry x -> Q x
+    (axes rotated; for an improper Q the anisotropic matrix is re-expressed in the right-handed
+    basis (Q a1, Q a2, Q a1 ^ Q a2) = (Q a1, Q a2, -Q a3): components with an odd number of
+    index 3 change sign)."""
     dim = spec["dim"]
     cls = spec["cls"]
     R = rot2(spec["angles"][0]) if len(spec["angles"]) == 1 else rot3(spec["angles"])
     a1, a2 = R[:, 0].copy(), R[:, 1].copy()
+    flip3 = False
+    if Q is not None:
+        Q = np.asarray(Q, float)
+        a1, a2 = Q @ a1, Q @ a2
+        flip3 = np.linalg.det(Q) < 0
     ps, th = bool(spec["planeStress"]), float(spec["thickness"])
     try:
         if cls == "iso":
@@ -75,6 +84,9 @@ def make_elastic(spec):
             n = 3 if dim == 2 else 6
             B = np.random.default_rng(spec["Cseed"]).uniform(-1, 1, (n, n))
             C = B @ B.T + 1.5 * np.eye(n)
+            if flip3 and dim == 3:
+                sgn = np.array([1, 1, 1, -1, -1, 1.0])
+                C = C * np.outer(sgn, sgn)
             mat = Models.Elastic.Anisotropic(dim, C, False, axis1=a1, axis2=a2, thickness=th)
     except AssertionError as e:
         raise Inconclusive(f"law constructor rejected parameters: {str(e)[:40]}")
